@@ -20,7 +20,13 @@ func verifHarness_C19_helpers() {
 	verifAssume(verifAnd(status >= 100, status <= 599))
 	n := verifLen("payload_len", 0, 3)
 	payload := verifString("payload", n)
-	obj := verifC19Obj{N: "v"}
+	var obj any = verifC19Obj{N: "v"}
+	unencodable := kind >= 5 && kind <= 7 && verifChoice("unencodable", 2) == 1
+	verifSetGhost("err.json.Encode", unencodable)
+	verifSetGhost("err.xml.Encode", unencodable)
+	if unencodable && !verifSymbolic() {
+		obj = make(chan int)
+	}
 	cb := "cb"
 	r := New()
 	nErrors := 0
@@ -79,6 +85,7 @@ func verifHarness_C19_helpers() {
 	case 5, 6, 7:
 		docs := map[int]string{5: "application/json; charset=utf-8", 6: "application/javascript; charset=utf-8", 7: "application/xml; charset=utf-8"}
 		verifAssert(ct == docs[kind], "encoding helpers set their documented Content-Type")
+		verifAssert((nErrors > 0) == unencodable, "an encoding failure is reported through the context's error list (and only then)")
 		if nErrors > 0 {
 			verifCover("C19 encoder failure reported through the error list")
 			return
